@@ -439,6 +439,11 @@ func (it *Interp) call(fn *ssa.Function, args []Value, bind []Value) Value {
 		}
 		it.inconclusive("unmodelled external function " + name)
 	}
+	for _, c := range it.job.CutCalls {
+		if strings.HasSuffix(name, c) {
+			panic(pathEnd{"truncated", "call of " + c + " (outside this unit)"})
+		}
+	}
 	if it.job.DenyCall != nil && it.job.DenyCall(name) {
 		it.inconclusive("unmodelled call " + name)
 	}
